@@ -272,6 +272,14 @@ def handle (op : String) (j : Json) : Except String Json := do
       | .error e => errToJson e
     pure (Json.mkObj [("enc", enc), ("dec", dec), ("encodable", .bool (Encodable v)), ("shape", .bool (EncShape v)),
       ("decodable", .bool (Decodable v)), ("norm", pvToJson (norm v))])
+  | "tokens" =>
+    -- the text-layer table for the non-finite floats: what the model says `json.dumps` writes / `json.loads` reads
+    let row (f : Flt) : Json := Json.mkObj [("f", fltToJson f),
+      ("token", match nonFiniteToken f with | some t => .str t | none => .null),
+      ("back", match (nonFiniteToken f).bind parseConstant with | some g => fltToJson g | none => .null),
+      ("dumps", match dumpFlt f with | .ok _ => .str "ok" | .error e => errToJson e)]
+    pure (Json.mkObj [("rows", Json.arr #[row .nan, row (.inf false), row (.inf true), row .negZero, row (.fin 1 1)]),
+      ("allow_nan", .bool NemoVerif.Generated.C11.dumpsAllowNan)])
   | "cleanup" =>
     let flows ← (← (← j.getObjVal? "flows").getArr?).toList.mapM flowOfJson
     let idx ← (← (← j.getObjVal? "idx").getArr?).toList.mapM fun e => do
